@@ -188,6 +188,8 @@ def do_check(mod, pid, tier, seed, budget, dump_failures=None):
               pid, tier, seed, cov.get('states'), cov.get('transitions'),
               cov.get('distinct_nontrivial'), cov.get('exhaustive'), len(unlisted),
               sum(n for _, n in listed), wall), flush=True)
+    if rc == 1:
+        return 1          # a confirmed, unlisted violation outranks harness trouble elsewhere
     if ctx.harness_errors:
         return 2
     return rc
